@@ -59,6 +59,18 @@ CLAIMS = {
             "Proof (partial): C19_trace_partial (trace = pre/post-order traversal, union-free, both paths), C19_mixin_once (exactly once and in order with unions on the mixin path), C19_context, C19_de_trace_partial, C19_de_post_once (any schema, any input); the full statement is refuted by two known findings (codec union double pre hook; context lost for a later union member). Closed under the global context.",
             "Trusted: Coq kernel + vm_compute; hand-written Hooks.v control-flow model checked on ~1k (quick) / 19.5k (thorough) cases per run; c19lib.py materialiser; CPython attribute lookup, keyword and exception semantics modelled.",
             "4 C19"),
+    "C04": ("Coq proof by induction over a small (value, type) model composed with assumed library laws (Section hypotheses fmt_law / leaf_law, never axioms); kernel K11 (per-format method names) translated from source each run; vm_compute correspondence against the implementation and the real format libraries; generated-schema oracle over 5 formats x 4 entry-point kinds",
+            "Proof (partial): C04_roundtrip_partial and C04_doc_is_basic / C04_doc_exact for all five formats relative to the assumed laws of the format libraries and stdlib leaf codecs (validated on every generated document); the TOML round trip carries the premise that Optional fields default to None, the full statement is refuted with a witness reproducing on /repo (known finding); C04_method_names_injective over the code translated on every run. Closed under the global context.",
+            "Trusted: Coq kernel + vm_compute (+ coqchk in thorough); fmt_law/leaf_law are hypotheses about third-party libraries (json, orjson, yaml, msgpack, tomli_w/tomllib) validated by sampling; harness materialiser; K11 translator extension; the codec wrapper and all types outside the small grammar are covered by the oracle only.",
+            "4 C04"),
+    "C10": ("Coq proof (general: first hit of a sorted complete enumeration is the unique minimum) over the resolution code translated from /repo on every run (kernel K5: iter_serialization_strategies, get_overridden_(de)serialization_method, the first registry handlers); kernel validation and tagged real classes/codecs by vm_compute; independent lexicographic-minimum oracle",
+            "Proof: C10_precedence (for arbitrary registration tables and type keys the translated functions return exactly the unique minimum of the enabled (field option, field strategy, key, level) slots), C10_empty, C10_pass_through, C10_sym; 'exactly one level applies' is proved off Annotated aliases and refuted for them (two known findings). Closed under the global context.",
+            "Trusted: Coq kernel + vm_compute (+ coqchk in thorough); py2gallina + the K5 plugin (generators, CPS loops) and its PyK_strat primitives (validated each run); hand-modelled NewType / use_annotations re-entry; harness materialiser.",
+            "4 C10"),
+    "C18": ("Coq proof of a label-sharing semantics of the generated packers/unpackers (every mutable container carries a label; by-reference keeps it, copies draw fresh ones) by induction over types/values; vm_compute correspondence of normalised result trees with id()-labelled real results; id-graph + snapshot oracle",
+            "Proof: C18_share (old-labelled parts of a serialization result are exactly the input sub-values at Any/pass_through positions and at collection positions whose origin is in the effective no_copy_collections and whose element packer is the identity), C18_default_fresh, C18_decode_fresh, C18_decode_all_fresh, C18_no_mutation; partial w.r.t. the semantic reading of 'conversion-free' (Optional/Literal elements, C18_share_full_refuted) and refuted for unions under no_copy (3 known findings). Closed under the global context. Real mutation-freedom is checked by the oracle, not proved.",
+            "Trusted: Coq kernel + vm_compute; Share.v as a model of CPython identity (comprehension/.copy()/display build a new object, a bare name evaluates to the same object) and of option lookup / dialect forwarding (effN); harness materialisation and id() labelling; unions, Literal, TypedDict, ChainMap, bytearray are oracle-only.",
+            "4 C18"),
 }
 
 ALL = [f"C{i:02d}" for i in range(1, 21)]
